@@ -46,6 +46,12 @@ def check(ctx: Ctx) -> None:
         if ov is None:
             ob.violation(f_recv, f_recv.node, "WorkerGateway no longer overrides _terminate_execution", construct="no override")
 
+    with ctx.obligation("C11.f", "eof-detected") as ob:
+        # the ladder starts only if the lost connection surfaces as EOFError in the receiver, wherever the cut falls
+        from .C08 import check_exact_read
+        for cname in ("Popen2IO", "SocketIO"):
+            check_exact_read(repo, ob, repo.cls(cname).methods["read"])
+
     with ctx.obligation("C11.b", "escalation-ladder") as ob:
         cfg = build_cfg(repo, f_term, Oracle(repo, f_term, precise=True))
         waits = [n for n in cfg.nodes if n.kind == "test" and any(callee_attr(c) == "waitall" for c in calls_in_node(n)) and n.id in cfg.live()]
